@@ -46,6 +46,9 @@ func runC12(c *Ctx) {
 
 	checkTimeHeap(r, p)
 	checkGeneralHeap(r, c)
+	if pd := c.Load("ds"); pd != nil {
+		checkHeapFieldDiscipline(r, pd, "heap/only-through-container-heap", "ds/priorityqueue", "PriorityQueue", "heap")
+	}
 	checkRandomMap(r, p)
 	checkBytesFilter(r, p)
 	checkRings(r, p)
